@@ -116,12 +116,7 @@ def known_finding_replays(ctx):
                             vw, vp, vm, Tp, Tm, model.Tnucl, back))
                 rep = dict(kind="matching", case=dict(eos="2step", Tn=0.55), vw=vw,
                            hydro=[10, 0.01, 1e-6, 1e-10], shock_end=back)
-                if any(k.get("property") == "C06" and k.get("key") == KNOWN_JUMP
-                       for k in ctx.known.get("findings", [])):
-                    ctx.fail_input(what, rep, key=KNOWN_JUMP)
-                else:
-                    # proposed in findings/C06_known_entries.json, not registered yet
-                    ctx.log("candidate finding (not registered):", what)
+                ctx.fail_input(what, rep, key=KNOWN_JUMP)
     except Exception as ex:
         ctx.log("known-finding replay (c) could not be run:", repr(ex))
 
@@ -1202,7 +1197,28 @@ def strong_family(ctx):
                     vmin_consistency(ctx, label, case, h)
 
 
+def tmin_observation(ctx):
+    """Outside the statement (decision recorded in the manifest note): the clause is about the
+    window being cut short from ABOVE; slower walls whose T- falls below the lower end of the
+    low-T table are evaluated on the extrapolated equation of state and the code has no logic
+    for it.  Kept as a counted observation only."""
+    try:
+        case = dict(eos="2step", Tn=0.5)
+        model = make_model(case)
+        model.TMinLowT = 0.45
+        model.freeEnergyLow.minPossibleTemperature = [0.45, False]
+        h = new_hydro(model)
+        v = float(h.fastestDeflag())
+        Tm = float(h.findMatching(0.5 * (h.vMin + 0.5))[3])
+        ctx.count("observation_TMinLowT_not_limiting",
+                  bucket="T-(slower wall) %s TMinLowT, fastestDeflag %s vJ" % (
+                      "<" if Tm < 0.45 else ">=", "==" if v == h.vJ else "<"))
+    except Exception as ex:
+        ctx.log("TMin observation could not be run:", repr(ex))
+
+
 def direct_validation(ctx):
+    tmin_observation(ctx)
     models = eos_models(ctx)
     first_template = True
     for label, case in models:
